@@ -1099,6 +1099,14 @@ class Driver(object):
                             exp.assigns.append(("put", c.field, k2, v2))
                     else:
                         exp.assigns.append(({"add": "add", "remove": "sub", "append": "add", "prepend": "prepend"}[op], c.field, None, dv))
+            if rng.random() < 0.15:
+                # a counter delta (the statement classes do not know the table: any column object will do)
+                cc = self.C.Counter()
+                cc.set_column_name("cnt%d" % rng.randint(0, 3))
+                prev, val = rng.choice([None, rng.randint(-50, 50)]), rng.randint(-50, 50)
+                st.add_update(cc, val, previous=prev)
+                delta = val - (prev or 0)
+                exp.assigns.append(("sub" if delta < 0 else "add", cc.db_field_name, None, abs(delta)))
             if order >= 0.5:
                 for w in where_clauses():
                     st._add_where_clause(w)
